@@ -483,11 +483,12 @@ def run(ctx):
         alt = [json.loads(json.dumps(r)) for r in rows if r["op"] in ("addJ", "mulA", "tplJ")][:400:57]
         for r in alt:
             r["row"][len(r["row"]) // 2] = (r["row"][len(r["row"]) // 2] + 1) % t.n
-        compare(pr, t, alt, b, {"bad": 0})
+        st = {"bad": 0}
+        compare(pr, t, alt, b, st)
         ev.cov["selftest_replay_altered_entries"] = len(alt)
-        ev.cov["selftest_replay_reported"] = len(pr.keys)
-        if len(pr.keys) != len(alt):
-            ctx.note_inconclusive("binding self-test (replay): %d altered entries, %d reported" % (len(alt), len(pr.keys)))
+        ev.cov["selftest_replay_reported"] = st["bad"]
+        if st["bad"] != len(alt) or not pr.keys:
+            ctx.note_inconclusive("binding self-test (replay): %d altered entries, %d reported" % (len(alt), st["bad"]))
     # (2)
     rows, n, bad, r, crash, (nm, n2, nb2, r2), (rc2, err2) = rec
     states += r.distinct + r2.distinct
